@@ -166,15 +166,16 @@ def run(tier, seed, replay=None):
             if rec.get('e') == 'crash':
                 ck.violation('%s build: crash %s %s' % (variant, rec['kind'], rec['code']), rec['case'][:200], dict(cases=[list(cases[rec['ci'] - 1])]))
                 continue
-            case = cases[rec['ci'] - 1]
-            c2 = os.path.join(wd, 'confirm.txt'); t2 = os.path.join(wd, 'confirm.ndjson')
-            write_cases(c2, [('permfull', case[1], case[2])]); sh([exe, c2, t2], timeout=60)
-            v2 = validate_trace(wd, 'Trace_Poseidon', 'Trace_Poseidon.cfg', t2, env={'PCONST': pc}, nsplit=1)
-            if v2['rejected']:
-                r2 = v2['rejected'][0][1]
-                agree = all(r2.get(k) == r2.get('seq') for k in ('avx', 'seq_ip', 'avx_ip'))
-                ck.violation('%s build: permutation %s on state %s' % (variant, 'variants disagree' if not agree else 'differs from the specified permutation (or AVX512 slot mismatch)', ' '.join('%x' % x for x in case[1])),
-                             json.dumps(vlib.compact(r2))[:400], dict(cases=[['permfull', list(case[1]), list(case[2])]]))
+            ci = rec['ci']
+            case = cases[ci - 1]
+            how = vlib.confirm_case(wd, 'Trace_Poseidon', 'Trace_Poseidon.cfg', lambda cp, tp: [exe, cp, tp], write_cases,
+                                    [('permfull', x[1], x[2]) if i == ci - 1 else x for i, x in enumerate(cases)], ci, env={'PCONST': pc})
+            if how:
+                agree = all(rec.get(k) == rec.get('seq') for k in ('avx', 'seq_ip', 'avx_ip'))
+                ck.violation('%s build: permutation %s on state %s%s' % (variant, 'variants disagree' if not agree else 'differs from the specified permutation (or AVX512 slot mismatch)', ' '.join('%x' % x for x in case[1]), vlib.HIST if how == 'history' else ''),
+                             json.dumps(vlib.compact(rec))[:400], dict(cases=[[x[0], list(x[1]), list(x[2])] for x in (cases[:ci] if how == 'history' else [('permfull', case[1], case[2])])]))
+            else:
+                ck.note('rejection not reproduced on re-run (neither alone nor after its process history): state %s' % ' '.join('%x' % x for x in case[1]))
     ck.cov['states_per_build'] = len(cases)
     ck.cov['fully_re_evaluated_by_TLC'] = sum(1 for c in cases if c[0] == 'permfull')
     ck.cov['rejected_records'] = total_rej
